@@ -181,7 +181,7 @@ macro_rules! select_stage {
                 subblock_inventory: subs.to_vec().into_boxed_slice(),
                 overflow_positions: ovf.to_vec().into_boxed_slice(),
             };
-            let da = DArray::<$s0> { bv, ones_inventories: Inventories::default(), zeroes_inventories: None };
+            let da = DArray::<$s0> { bv, ..Default::default() };
             let i: usize = kani::any();
             // layout preconditions of the entries this query touches - stated BEFORE the call
             let valid = i < n_sets;
@@ -443,7 +443,7 @@ fn assembled_191() -> DArray<true> {
         subblock_inventory: zero_subs().to_vec().into_boxed_slice(),
         overflow_positions: Vec::new().into_boxed_slice(),
     };
-    DArray::<true> { bv: mk_imm_line(&WORDS191, 191), ones_inventories: ones, zeroes_inventories: Some(zeros) }
+    DArray::<true> { bv: mk_imm_line(&WORDS191, 191), ones_inventories: ones, zeroes_inventories: Some(zeros), ..Default::default() }
 }
 
 // @h props=C07,C04,C10,C18 tier=quick family=A mem=8 timeout=1800 stubs=utils::select_in_word->contract role=darray.assembled191
@@ -546,7 +546,7 @@ fn c07_assembled_runs320() {
         subblock_inventory: subs::<N0, 5>(&ZEROS).to_vec().into_boxed_slice(),
         overflow_positions: Vec::new().into_boxed_slice(),
     };
-    let da = DArray::<true> { bv: mk_imm_line(&WORDS, N), ones_inventories: ones, zeroes_inventories: Some(zeros) };
+    let da = DArray::<true> { bv: mk_imm_line(&WORDS, N), ones_inventories: ones, zeroes_inventories: Some(zeros), ..Default::default() };
     let k: usize = kani::any();
     let a1 = da.select1(k);
     let b1 = da.select0(k);
